@@ -418,9 +418,74 @@ var nearMissPool = []string{
 	"12inf", "1infinity", "xinfinity", "1eInf", "5Inf", "1e5Inf",
 }
 
+// zero in every spelling, with every sign: the result differs only in the sign bit
+func (g *gen) zeroText() string {
+	r := g.r
+	body := Pick(r, []string{"0", "0", "00", "000", "000000000000000", "00000000000000000", "000000000000000000", "0000000000000000000000000",
+		"0.0", "0.", ".0", ".000", "0.000000", "0e0", "0e5", "0E-5", "0e+400", "0e-400", "0.0e1", ".0e-1", "00.0", "0x0", "0X00", "0.00000000000000000000000000000000000"})
+	if r.Intn(2) == 0 {
+		body = strings.Repeat("0", r.Intn(22)+1) // plain integer zeros of every length
+	}
+	return Pick(r, []string{"-", "-", "-", "+", ""}) + body
+}
+
+// decimal integer strings of every length 1..25 (sign and leading zeros included in what strconv
+// sees), around the int64 boundary, and with exact 2^k / 10^k values
+func (g *gen) integerText() string {
+	r := g.r
+	var body string
+	switch r.Intn(6) {
+	case 0:
+		body = Pick(r, []string{"9223372036854775807", "9223372036854775808", "9223372036854775809", "9223372036854775806", "18446744073709551615", "18446744073709551616",
+			"999999999999999999", "1000000000000000000", "99999999999999999", "100000000000000000", "9007199254740991", "9007199254740992", "9007199254740993",
+			"2147483647", "2147483648", "4294967295", "4294967296", "1", "9", "10"})
+	case 1:
+		body = strings.Repeat("0", r.Intn(20)) + g.digits(r.Intn(8)+1)
+	default:
+		n := r.Intn(25) + 1
+		body = string(byte('1'+r.Intn(9))) + g.digits(n-1)
+		if r.Intn(4) == 0 {
+			body = strings.Repeat("0", r.Intn(4)+1) + body
+		}
+	}
+	return Pick(r, []string{"", "", "-", "-", "+"}) + body
+}
+
+// a decimal whose value overflows the double range, optionally followed by something that is not part of it
+func (g *gen) overflowText(junk bool) string {
+	r := g.r
+	var body string
+	switch r.Intn(5) {
+	case 0:
+		body = g.digits(r.Intn(3)+1) + "e" + strconv.Itoa(Pick(r, []int{309, 310, 400, 999, 1000, 5000, 308 + r.Intn(5)}))
+	case 1:
+		body = string(byte('2'+r.Intn(8))) + "." + g.digits(r.Intn(5)) + Pick(r, []string{"e308", "E308", "e+308", "e0308"})
+	case 2:
+		body = string(byte('1'+r.Intn(9))) + g.digits(309+r.Intn(30)) + Pick(r, []string{"", ".", ".5", "e0", "e1"})
+	case 3:
+		body = "1.7976931348623159" + Pick(r, []string{"e308", "e+308", "E308"})
+	default:
+		body = "0." + g.digits(3) + "1e" + strconv.Itoa(313+r.Intn(700))
+	}
+	body = Pick(r, []string{"", "", "-", "+"}) + body
+	if junk {
+		body += Pick(r, []string{"px", "abc", ";", ".5", "e", "e5", "e+", "_", "_0", "x", " 1", " ", "Infinity", "inf", "f", "-", "+1", ",", "é", "..", "p3", "\u0000"})
+	}
+	return body
+}
+
 func (g *gen) numberText() (string, string) {
 	r := g.r
-	switch r.Intn(12) {
+	switch r.Intn(16) {
+	case 12, 15:
+		return g.ws() + g.zeroText() + g.ws(), "signed-zero"
+	case 13:
+		return g.ws() + g.integerText() + g.ws(), "integer-string"
+	case 14:
+		if r.Intn(2) == 0 {
+			return g.ws() + g.overflowText(false) + g.ws(), "overflow"
+		}
+		return g.overflowText(true), "overflow+junk"
 	case 0, 1, 2:
 		s := Pick(r, []string{"", "", "+", "-"}) + g.unsignedDecimal()
 		return g.ws() + s + g.ws(), "grammar"
@@ -524,6 +589,11 @@ func (g *gen) parseIntCase() (string, string, string, string) {
 		body, bucket = g.radixDigits(effective, r.Intn(6))+string(ch)+g.radixDigits(effective, r.Intn(4)), "pint-radix-edge"
 	default:
 		body, bucket = g.radixDigits(effective, Pick(r, []int{13, 14, 15, 16, 18, 19, 20})), "pint-medium"
+	}
+	if r.Intn(12) == 0 {
+		// zero in several spellings: only the sign bit of the result tells them apart
+		body, bucket = Pick(r, []string{"0", "00", "000000000000000000000", "0x0", "0X000", "0.9", "0e5", "0z", "0_"}), "pint-zero"
+		body = Pick(r, []string{"-", "-", "+", ""}) + body
 	}
 	if r.Intn(4) == 0 {
 		body = Pick(r, []string{"-", "+", "-", " -", "\t+"}) + body
@@ -712,9 +782,9 @@ func (g *gen) caseNum(s, bucket string) {
 	if !ok {
 		bits = 0x7FF0000000000001
 	}
-	same := g.boolRes(`(function(){function eq(a,b){return (a!==a && b!==b) || (a===b && 1/a===1/b)} var a = Number(s); return eq(a, +s) && eq(a, s*1) && eq(a, s/1) && eq(a, -(-s)) && eq(a, new Number(s).valueOf()) && eq(isNaN(s), a!==a)})()`)
+	same := g.boolRes(`(function(){function eq(a,b){return (a!==a && b!==b) || (a===b && 1/a===1/b)} var a = Number(s); return eq(a, +s) && eq(a, s*1) && eq(a, s/1) && eq(a, s-0) && eq(a, -(-s)) && eq(a, new Number(s).valueOf()) && eq(a, (function(x){return +x})(s)) && eq(a, [s]*1) && eq(isNaN(s), a!==a) && eq(s == 0, a === 0) && eq(s < 0, a < 0) && eq(s >= 1, a >= 1) && eq(1/a, 1/s)})()`)
 	g.env.Add(fmt.Sprintf("CNum %s %d %s", Cstr(s), bits, Cbool(same)),
-		fmt.Sprintf("num Number(%s) -> %s ; +s, s*1, s/1, -(-s), new Number(s) agree=%v", strconv.QuoteToASCII(s), show, same), "tonumber/"+bucket, len(s) > 2)
+		fmt.Sprintf("num Number(%s) -> %s ; +s, s*1, s/1, s-0, -(-s), new Number(s), [s]*1, 1/s, comparisons agree=%v", strconv.QuoteToASCII(s), show, same), "tonumber/"+bucket, len(s) > 2)
 }
 
 func (g *gen) casePFloat(s, bucket string) {
@@ -795,7 +865,7 @@ func (g *gen) caseChain(kind int, f float64, bucket string) {
 
 func runC06(env *Env) {
 	env.Import = "Otto.C06.Corr"
-	env.Rule = "doubles: random bit patterns, subnormals, 10^k and 2^k with neighbours, exact decimal ties, the 1e21/1e-6/1e-7 thresholds, integers around 2^53/2^63/2^64, short and 17-digit decimals; each printed by String/toString(radix)/toFixed/toExponential/toPrecision over all digit counts and radixes plus out-of-range arguments. texts: StrDecimalLiteral grammar, exact/shortest/17-digit texts of doubles, exact midpoints between adjacent doubles and texts a hair off them, hex, a pool of near misses and random mutations of all of these, fed to Number()/unary plus/parseFloat/parseInt (every radix, boundary and long digit strings, junk suffixes, first non-digit at the radix edge)/program source; print-then-parse chains inside one script; all on one long-lived runtime. non-trivial = distinct case other than a small integer value resp. a text of more than two characters"
+	env.Rule = "doubles: random bit patterns, subnormals, 10^k and 2^k with neighbours, exact decimal ties, the 1e21/1e-6/1e-7 thresholds, integers around 2^53/2^63/2^64, short and 17-digit decimals; each printed by String/toString(radix)/toFixed/toExponential/toPrecision over all digit counts and radixes plus out-of-range arguments. texts: StrDecimalLiteral grammar, exact/shortest/17-digit texts of doubles, exact midpoints between adjacent doubles and texts a hair off them, hex, a pool of near misses and random mutations of all of these, zero in every spelling and sign, decimal integer strings of 1..25 digits around the int64 edge, overflowing decimals with and without trailing junk, fed to Number()/unary plus/parseFloat/parseInt (every radix, boundary and long digit strings, junk suffixes, first non-digit at the radix edge)/program source; print-then-parse chains inside one script; all on one long-lived runtime. non-trivial = distinct case other than a small integer value resp. a text of more than two characters"
 	g := &gen{env: env, vm: otto.New(), r: env.Rng}
 	r := env.Rng
 
@@ -847,6 +917,16 @@ func runC06(env *Env) {
 	for _, s := range []string{"inf", "1_0", "0x8000000000000000"} {
 		g.caseNum(s, "pinned")
 	}
+	// signed zeros and the int64 edge in every spelling: compared as bit patterns
+	for _, s := range []string{"-0", "-00", "+0", "-0.0", "-0e5", " -0 ", "-.0", "-0.", "-000000000000000000", "-0x0", "\t-0\n", "-0000000000000000000000000",
+		"9223372036854775807", "-9223372036854775808", "-9223372036854775809", "999999999999999999", "-00000000000000001", "+00000000000000009"} {
+		g.caseNum(s, "pinned-zero-int")
+	}
+	for _, s := range []string{"-0", "-0.0", "-0e5x", "-.0px", "1e400px", "-1e999abc", "1e309.5", "2e308;", "-9e999e"} {
+		g.casePFloat(s, "pinned-zero-overflow")
+	}
+	g.casePInt("-00", "", "None", "pinned")
+	g.casePInt("-0x0", "16", "(Some "+Cdouble(16)+")", "pinned")
 	g.casePInt("-0", "", "None", "pinned")
 	g.casePInt("0x8000000000000401", "16", "(Some "+Cdouble(16)+")", "pinned")
 	g.casePInt("9223372036854775809", "10", "(Some "+Cdouble(10)+")", "pinned")
@@ -894,7 +974,12 @@ func runC06(env *Env) {
 			g.caseNum(s, b)
 		case k < 80:
 			s, b := g.numberText()
-			if r.Intn(3) == 0 {
+			switch r.Intn(8) {
+			case 0:
+				s, b = g.ws()+g.overflowText(true), "overflow+junk"
+			case 1:
+				s, b = g.ws()+g.zeroText()+Pick(r, []string{"", "", "x", "e", ".", " 1", "px", "e+", "_"}), "signed-zero"
+			case 2, 3, 4:
 				s += Pick(r, []string{"x", " 1", "e", "e+", ".", "..", "px", "Infinity", "inf", "_", "f", "-", "+5", ",5", "é"})
 				b += "+suffix"
 			}
